@@ -4,6 +4,9 @@ manifest stays valid while checks are added)."""
 import json, os
 ROOT = os.path.dirname(os.path.abspath(__file__))
 CHECKS = {
+ "C13": dict(level="exploration", technique="stream invariants (strict priority, FIFO admission, multiplex bound + round-robin consequence, interleave window + block order) on the independently decoded stream over a complete small grid, late high-priority injection at every packet index and random workloads",
+     text="All workloads of a small grid (1-3 queues x 1-3 objects x size patterns x multiplex 0-3 x interleave 1-4 x publish mode), a high-priority object injected at every packet index of a low-priority transmission, and thousands of random workloads (<= 6 queues, <= 20 objects) run on the real sender; four invariants are evaluated on the decoded stream with readiness taken from the operation log. Complete for the grid, sampled beyond.",
+     note="trusted: independent decoder, operation log; no start time / pacing / carousel in these workloads", ref="DESIGN.md §5 C13"),
  "C12": dict(level="exploration", technique="per-object lifecycle reference model over Start/StopTransfer events, independently decoded stream and API state samples; removal at every packet index; termination cap per instant",
      text="A controlled grid (transfer counts 1..5 x five carousel modes x immediate-stop x FEC x publish mode) with the object removed at EVERY packet index of its first two transfers, and thousands of random multi-object scripts, run on the real sender; the model decides exact complete-transfer counts, disappearance after the last transfer, carousel persistence, the three removal outcomes (finish first transfer / at most one close-object packet / nothing), nb_transfers at quiescent points, nb_objects, FDT-only tail and termination of reads at a fixed instant. Held on the scripts run.",
      note="trusted: Subscriber events as transfer boundaries cross-checked by the decoded stream; liveness verdicts only on the ample-horizon grid", ref="DESIGN.md §5 C12"),
